@@ -1,10 +1,10 @@
 #!/bin/bash
-# tools/seedsweep.sh [jobs]  — run every seeded change under /verif/seeded against the check of its
+# tools/seedsweep.sh [jobs] [name-regex]  — run every seeded change under /verif/seeded against the check of its
 # own property (quick tier) in scratch copies /tmp/seedsweep<k>; prints one CAUGHT/MISSED line each.
 # Exceptions: C14-r3 and C05-r5 are capacity/expiry defects (checked with C07), C12-r3 is outside the listed statements.
 J=${1:-3}
 cd /verif
-ls seeded | sort > /tmp/seedsweep.list
+ls seeded | sort | grep -E "${2:-.}" > /tmp/seedsweep.list
 run_one() {
   k=$1; name=$2
   id=${name%%-*}
